@@ -91,17 +91,19 @@ def field? (pre : String) (s : String) : Option String :=
   if s.startsWith pre then some (s.drop pre.length).toString else none
 
 def handleTrace : List String → String
-  | [np, nm, _mode, w, lost, multi, before, after, leak, note] =>
+  | [np, nm, _mode, w, lost, multi, before, after, leak, note, caps] =>
     -- a caller, the disconnect or the handshake that never returned is outside every schedule
     if note != "note=-" then "unexplained:" ++ note else
     match np.toNat?, nm.toNat?, (field? "w=" w).bind parseNats?, (field? "lost=" lost).bind parseNats?,
           (field? "multi=" multi).bind parseMulti?, (field? "before=" before).bind parseNats?,
-          (field? "after=" after).bind parseNats?, (field? "leak=" leak).bind parseBool? with
-    | some np, some nm, some w, some lost, some multi, some before, some after, some leak =>
-      match Pipe.unexplained ⟨np, nm, w, lost, multi, before, after, leak⟩ with
+          (field? "after=" after).bind parseNats?, (field? "leak=" leak).bind parseBool?,
+          (field? "caps=" caps).bind parseNats? with
+    | some np, some nm, some w, some lost, some multi, some before, some after, some leak,
+      some [c0, c1, c2, c3] =>
+      match Pipe.unexplained ⟨np, nm, w, lost, multi, before, after, leak, (c0, c1, c2, c3)⟩ with
       | none => "ok"
       | some r => "unexplained:" ++ r
-    | _, _, _, _, _, _, _, _ => "bad-op"
+    | _, _, _, _, _, _, _, _, _ => "bad-op"
   | _ => "bad-op"
 
 def handleHs : List String → String
@@ -180,14 +182,14 @@ def handle : List String → String
   | "trace" :: rest => handleTrace rest
   | "push" :: rest => handlePush rest
   | "hs2" :: rest => handleHs2 rest
-  | ["inv", n, k, d, b] =>
-    match n.toNat?, k.toNat?, d.toNat?, b.toNat? with
-    | some n, some k, some d, some b =>
-      if n > 5000 ∨ k > n ∨ k + d > n ∨ b > 40 then "bad-op" else
-      let batches := Trickle.scenario n k d
+  | ["inv", n, k, d, b, maxBatch, limit] =>
+    match n.toNat?, k.toNat?, d.toNat?, b.toNat?, maxBatch.toNat?, limit.toNat? with
+    | some n, some k, some d, some b, some maxBatch, some limit =>
+      if n > 20000 ∨ k > n ∨ k + d > n ∨ b > 40 ∨ maxBatch = 0 then "bad-op" else
+      let batches := Trickle.scenario maxBatch limit n k d
       let sizes := batches.map (fun c => toString c.length)
       s!"blocks={b} tx={joinOrDash sizes} sum={Trickle.checksum batches.flatten}"
-    | _, _, _, _ => "bad-op"
+    | _, _, _, _, _, _ => "bad-op"
   | ["racerun", _, _, _] =>
     -- the model has no data: a race-detector run of the harness must be clean and agree
     "build=ok races=0 mism=0"
@@ -195,7 +197,7 @@ def handle : List String → String
   | ["prestart", dir, n, mode] =>
     match n.toNat? with
     | some n =>
-      if (dir == "in" || dir == "out") && n ≤ 50 && (mode == "fail" || mode == "ok") then
+      if (dir == "in" || dir == "out") && n ≤ 5000 && (mode == "fail" || mode == "ok") then
         Pipe.prestartAnswer n (mode == "fail")
       else "bad-op"
     | none => "bad-op"
